@@ -9,6 +9,14 @@ TB = ("trusted base: rustc's MIR construction and Instance resolution for the re
       "mir-opt-level 0, overflow checks on), the fact extractor /verif/driver, std/rpds/arcstr behaving as documented")
 
 CLAIMS = {
+ 'C18': dict(
+   technique="MIR sibling-agreement check with inter-procedural constant substitution + who-may-call + failure-path analysis (custom extractor, Python rules)",
+   text=("Thin, static: the round trip of the data belongs to the base32/base64/z85 crates (trusted). Decided: each word pair X / X> reaches "
+         "encode vs decode of the same crate with the same codec constant (alphabet variant and padding; base64 engine constant, read through "
+         "the promoted constant); every encoder takes its bytes from into_bitstr (what >bitstr wraps) + bytestr with ToBytestrError for "
+         "non-byte lengths and no other input path; every decoder turns the library failure value into push_data(NIL) and Ok. Not decided: "
+         "byte-level equality, in particular the copying path of bytestr for unaligned inputs."),
+   ref='§3 C18'),
  'C06': dict(
    technique="MIR who-may-write on heap cells via CellRef provenance + control-dependence + path ordering (custom rustc_private extractor, Python rules)",
    text=("Static, all parsing words x all paths: only move_offset_checked/open/close write the cursor cells and only commit_read/seek move the "
